@@ -63,6 +63,7 @@ Stateless(e) ==
          ELSE IF \E F \in {Folds(n)} : \E i \in 1..n : ~SameElem(Decode(ty, e.outs[i]), F[i]) THEN "cumfold"
          ELSE "ok"
     [] e.op = "algadd" -> IF e.out = VAdd(e.x, e.a) THEN "ok" ELSE "algadd"
+    [] e.op = "raise" -> "raised"        \* a group operation on valid operands raised
     [] OTHER -> "unknown_op"
 
 IsHist(e) == e.op \in {"hmull", "hmulr", "hinv", "hretr"}
